@@ -251,6 +251,9 @@ def _check_frame(E, c, mods, fr, prop, fname, st, env, entry, kindname):
     whole = set()
     for loc in mods:
         node = calls.parse_clause(loc)
+        if isinstance(node, ast.Name) and node.id == "CLOCK":
+            whole.add("G|clock")
+            continue
         if isinstance(node, ast.Attribute):
             if isinstance(node.value, ast.Name) and node.value.id == "ANY":
                 for sh in E.R.shapes.values():
@@ -286,7 +289,7 @@ def _check_frame(E, c, mods, fr, prop, fname, st, env, entry, kindname):
     r = z3.Int(fresh_name("fr"))
     goals = []
     for key, cur in st.heap.items():
-        if key in whole or key in ("II",) or key.startswith("IS|"):
+        if key in whole or key in ("II",) or key.startswith("IS|") or (key == "G|clock" and False):
             continue
         old = entry.heap.get(key)
         if old is None:
